@@ -212,10 +212,10 @@ def rs_module(name, p, nm=None, macro="ascent", attrs=(), **kw):
             dumps.append(f"dump_rel({r}, self.p.{f}.iter().map(Row::render).collect())")
         elif d.get("lat"):
             loads.append(f"         {r} => {{ let v: Vec<{ty}> = parse_rows(rows)?; if !append {{ self.p.{f} = Default::default(); }} for x in v {{ self.p.{f}.push(std::sync::RwLock::new(x)); }} }},")
-            dumps.append(f"dump_rel({r}, self.p.{f}.iter().map(|(_, x)| x.read().unwrap().render()).collect())")
+            dumps.append(f"dump_rel({r}, self.p.{f}.iter().map(|x| x.read().unwrap().render()).collect())")
         else:
             loads.append(f"         {r} => {{ let v: Vec<{ty}> = parse_rows(rows)?; if !append {{ self.p.{f} = Default::default(); }} for x in v {{ self.p.{f}.push(x); }} }},")
-            dumps.append(f"dump_rel({r}, self.p.{f}.iter().map(|(_, x)| x.render()).collect())")
+            dumps.append(f"dump_rel({r}, self.p.{f}.iter().map(|x| x.render()).collect())")
     rt = ("ascent::internal::verif::arm_deadline(k); let r = self.p.run_timeout(std::time::Duration::from_secs(1)); "
           "ascent::internal::verif::disarm(); Some(r)") if timeout else "let _ = k; None"
     return f"""#[allow(unused, non_snake_case, clippy::all)]
